@@ -23,9 +23,28 @@ from .runner import run_isolated
 LINE_SPAN = {'build': 4000, 'combine': 900, 'invert': 600, 'restrict': 400,
              'dnf': 30000, 'bad_build': 4000, 'bad_combine': 50}
 
+ALLVARS = ['a', 'b', 'c', 'd', 'e', 'f']
 VARS = ['a', 'b', 'c', 'd']
 TT = {'a': 0xAAAA, 'b': 0xCCCC, 'c': 0xF0F0, 'd': 0xFF00}
 MASK = 0xFFFF
+NASG = 16
+
+
+def set_universe(nv):
+    """The variable universe of a run: nv variables, truth tables are
+    2**nv-bit integers.  Called on entry of gen_plan and execute, so the
+    module state never carries over from one run to another."""
+    global VARS, TT, MASK, NASG
+    VARS = ALLVARS[:nv]
+    NASG = 1 << nv
+    MASK = (1 << NASG) - 1
+    TT = {}
+    for j, v in enumerate(VARS):
+        t = 0
+        for k in range(NASG):
+            if (k >> j) & 1:
+                t |= 1 << k
+        TT[v] = t
 NSLOTS = 6
 
 
@@ -87,7 +106,7 @@ def tt_dnf_text(tt, nvars=4):
     if tt == MASK:
         return '1'
     terms = []
-    for k in range(16):
+    for k in range(NASG):
         if (tt >> k) & 1:
             lits = []
             for j, v in enumerate(VARS):
@@ -99,7 +118,7 @@ def tt_dnf_text(tt, nvars=4):
 def cofactor(tt, var, val):
     j = VARS.index(var)
     r = 0
-    for k in range(16):
+    for k in range(NASG):
         kk = (k | (1 << j)) if val else (k & ~(1 << j))
         if (tt >> kk) & 1:
             r |= 1 << k
@@ -111,9 +130,13 @@ def cofactor(tt, var, val):
 
 def gen_plan(seed):
     rng = random.Random(seed)
-    nvars = rng.choice([2, 3, 4, 4])
+    nv = rng.choice([4, 4, 4, 4, 5, 6])
+    set_universe(nv)
+    nvars = rng.choice([2, 3, 4, nv])
+    norder = rng.choice([2, 2, 2, 3])
+    nslots = rng.choice([6, 6, 6, 10])
     orderings = []
-    for _ in range(2):
+    for _ in range(norder):
         o = list(VARS)
         rng.shuffle(o)
         orderings.append(o)
@@ -162,10 +185,10 @@ def gen_plan(seed):
         if kind in ('bad_build', 'release_exc', 'bad_combine') and \
                 cfg['w_bad'] == 0:
             kind = 'build'
-        slot = rng.randrange(NSLOTS)
+        slot = rng.randrange(nslots)
         op = None
         if kind == 'build':
-            oi = 0 if cfg['one_ordering'] else rng.randrange(2)
+            oi = 0 if cfg['one_ordering'] else rng.randrange(norder)
             d = cfg['depth']
             if cfg['small_exprs'] and rng.random() < 0.6:
                 d = rng.choice([0, 1])
@@ -195,7 +218,7 @@ def gen_plan(seed):
             # through its traceback the frames holding partial results) is
             # kept until a later release_exc
             e = gen_expr(rng, cfg['depth'], nvars)
-            op = {'k': 'bad_build', 'o': rng.randrange(2),
+            op = {'k': 'bad_build', 'o': rng.randrange(norder),
                   'e': ['&', e, ['v', 'zz']] if rng.random() < 0.5
                   else ['|', ['v', 'zz'], e]}
         elif kind == 'bad_combine':
@@ -252,7 +275,7 @@ def gen_plan(seed):
                 if rng.random() < 0.6:
                     seq.append({'k': 'drop', 's': op['s']})
                 seq.append({'k': 'build', 's': b, 'e': e2, 'o': occ[a]})
-                seq.append({'k': 'combine', 's': rng.randrange(NSLOTS),
+                seq.append({'k': 'combine', 's': rng.randrange(nslots),
                             'op': op['op'], 'a': a, 'b': b})
                 if seq[-1]['s'] not in (a, b):
                     for o2 in seq:
@@ -261,8 +284,13 @@ def gen_plan(seed):
                         else:
                             occ[o2['s']] = occ[a]
                         ops.append(o2)
-    return {'prop': 'C16', 'orderings': orderings, 'churn': cfg['churn'],
-            'cfg': cfg, 'ops': ops}
+    if nv >= 6:
+        # the sum-of-products route is too long over 64 assignments
+        ops = [o if o['k'] != 'dnf' else {'k': 'invert', 's': o['s'],
+                                          'a': o['a']} for o in ops]
+    cfg.update({'nv': nv, 'norder': norder, 'nslots': nslots})
+    return {'prop': 'C16', 'nv': nv, 'orderings': orderings,
+            'churn': cfg['churn'], 'cfg': cfg, 'ops': ops}
 
 
 # ---------------------------------------------------------------------------
@@ -285,6 +313,7 @@ class Violation(Exception):
 def execute(plan):
     """Execute a plan; returns a JSON-able result.  Must run in a process in
     which the BDD library has never been used."""
+    set_universe(plan.get('nv', 4))
     import pyModelChecking.BDD.BDD
     import pyModelChecking.BDD.OBDD
     import _weakrefset
@@ -382,7 +411,7 @@ def execute(plan):
         t0 = BDDNode(0)
         t1 = BDDNode(1)
         tt = 0
-        for k in range(16):
+        for k in range(NASG):
             node = obdd.root
             hops = 0
             while isinstance(node, NT):
@@ -438,8 +467,8 @@ def execute(plan):
                     raise Violation(
                         'C16/J1-canonicity',
                         'slots {} and {} (ordering {}): model truth tables '
-                        '{:04x} / {:04x}, diagrams evaluate to {:04x} / '
-                        '{:04x}, but == is {}'.format(
+                        '{:x} / {:x}, diagrams evaluate to {:x} / '
+                        '{:x}, but == is {}'.format(
                             s, t, orderings[oia], ta, tb, tts[s], tts[t],
                             eq1))
         mism = [s for s in keys if tts[s] != slots[s][1]]
@@ -652,9 +681,9 @@ def execute(plan):
                     if evaluate(w, step) == ttm and not (w == ob):
                         raise Violation(
                             'C16/J1-canonicity',
-                            'slot {} built by {} must denote {:04x} but its '
-                            'diagram evaluates to {:04x}; it compares unequal '
-                            'to the parsed sum-of-products of {:04x}'.format(
+                            'slot {} built by {} must denote {:x} but its '
+                            'diagram evaluates to {:x}; it compares unequal '
+                            'to the parsed sum-of-products of {:x}'.format(
                                 s, slots[s][3], ttm, tts[s], ttm))
                 probe('denotation_mismatch_unwitnessed')
             events.append([op['k'],
